@@ -55,7 +55,20 @@ type parser struct {
 	validDirectives []string    // a directive must be valid or it's an error
 	eof             bool        // if we encounter a valid EOF in a hard place
 	definedSnippets map[string][]Token
+	importing       []importFrame // import directives being expanded, innermost last
 }
+
+// importedSource is a file or snippet whose tokens were spliced
+// into the token list and have not all been passed by the cursor.
+type importedSource struct {
+	name    string // absolute file name, or name of the snippet
+	snippet bool
+	after   int // how many tokens followed its last token when it was spliced in
+}
+
+// importFrame lists, in order, the sources spliced in by one
+// import directive that the cursor has not left yet.
+type importFrame []importedSource
 
 func (p *parser) parseAll() ([]ServerBlock, error) {
 	var blocks []ServerBlock
@@ -244,10 +257,20 @@ func (p *parser) doImport() error {
 	tokensBefore := p.tokens[:p.cursor-1]
 	tokensAfter := p.tokens[p.cursor+1:]
 	var importedTokens []Token
+	var frame importFrame
+
+	// an import directive inside tokens that were themselves imported may
+	// only name sources that are not being expanded already (issue: a file
+	// or snippet importing itself made the parser loop forever)
+	p.leaveImports(len(tokensAfter))
 
 	// first check snippets. That is a simple, non-recursive replacement
 	if p.definedSnippets != nil && p.definedSnippets[importPattern] != nil {
+		if p.isImporting(importPattern, true) {
+			return p.Errf("Import cycle: snippet %s is imported from within itself", importPattern)
+		}
 		importedTokens = p.definedSnippets[importPattern]
+		frame = importFrame{{name: importPattern, snippet: true}}
 	} else {
 		// make path relative to the file of the _token_ being processed rather
 		// than current working directory (issue #867) and then use glob to get
@@ -285,12 +308,29 @@ func (p *parser) doImport() error {
 		// collect all the imported tokens
 
 		for _, importFile := range matches {
+			absImportFile, err := filepath.Abs(importFile)
+			if err == nil && p.isImporting(absImportFile, false) {
+				return p.Errf("Import cycle: %s is imported from within itself", importFile)
+			}
 			newTokens, err := p.doSingleImport(importFile)
 			if err != nil {
 				return err
 			}
 			importedTokens = append(importedTokens, newTokens...)
+			// for now, after = where this file's tokens end in importedTokens
+			frame = append(frame, importedSource{name: absImportFile, after: len(importedTokens)})
 		}
+	}
+
+	// remember what the cursor is about to enter
+	for i := range frame {
+		if !frame[i].snippet {
+			frame[i].after = len(importedTokens) - frame[i].after
+		}
+		frame[i].after += len(tokensAfter)
+	}
+	if len(frame) > 0 {
+		p.importing = append(p.importing, frame)
 	}
 
 	// splice the imported tokens in the place of the import statement
@@ -299,6 +339,35 @@ func (p *parser) doImport() error {
 	p.cursor--
 
 	return nil
+}
+
+// leaveImports forgets the imported sources that ended before an import
+// directive which is followed by tokensAfter tokens. Tokens are only ever
+// spliced in at the cursor, so the number of tokens after a source does
+// not change while the cursor is inside of it.
+func (p *parser) leaveImports(tokensAfter int) {
+	for len(p.importing) > 0 {
+		top := p.importing[len(p.importing)-1]
+		for len(top) > 0 && tokensAfter < top[0].after {
+			top = top[1:]
+		}
+		if len(top) > 0 {
+			p.importing[len(p.importing)-1] = top
+			return
+		}
+		p.importing = p.importing[:len(p.importing)-1]
+	}
+}
+
+// isImporting tells whether the cursor is within the tokens of the
+// named file or snippet. Call leaveImports first.
+func (p *parser) isImporting(name string, snippet bool) bool {
+	for _, frame := range p.importing {
+		if frame[0].name == name && frame[0].snippet == snippet {
+			return true
+		}
+	}
+	return false
 }
 
 // doSingleImport lexes the individual file at importFile and returns
